@@ -5,7 +5,8 @@
 EXTENDS MC_C01
 TdmMetas == { Meta("tdm1", NoM, [name |-> "tdm", hasargs |-> TRUE, args |-> <<>>, kw |-> <<Kw("temporal_modes", I(3)), Kw("copies", I(1))>>]),
               Meta("tdm0", [name |-> "TD2"] @@ NoArgs, [name |-> "tdm"] @@ NoArgs),
-              Meta("ctrl", NoM, [name |-> "other"] @@ NoArgs) }
+              Meta("ctrl", NoM, [name |-> "other"] @@ NoArgs),
+              Meta("ctrl2", NoM, [name |-> "TDM"] @@ NoArgs) }             \* only the exact type name "tdm" makes p-arrays special
 PA(nm, ty, row) == [t |-> "arr", ty |-> ty, x |-> nm, shape |-> <<>>, rows |-> <<row>>]
 \* declared before every script: p-arrays with one- and several-digit indices, a scalar and an ordinary array
 TdmPre == << PA("p0", "float", <<F(1, 2), NegE(F(3, 2)), I(2)>>), PA("p1", "int", <<I(1), I(0)>>), PA("p2", "complex", <<Cpx(1, -2)>>),
@@ -17,6 +18,8 @@ TdmPre == << PA("p0", "float", <<F(1, 2), NegE(F(3, 2)), I(2)>>), PA("p1", "int"
              [t |-> "arr", ty |-> "float", x |-> "M", shape |-> <<>>, rows |-> << <<F(1, 2), I(2)>>, <<F(5, 2), NegE(I(1))>> >>] >>
 TdmItems == {
   PA("p7", "float", <<F(1, 8)>>),
+  [t |-> "arr", ty |-> "float", x |-> "p8", shape |-> <<1, 2>>, rows |-> << <<Par("phis")>> >>],
+  Stmt("Wp", TRUE, <<Var("p8")>>, <<Kw("w", Var("p8"))>>, <<I(0)>>, "none"),
   Stmt("Xgate", TRUE, <<Var("p123"), Var("p7")>>, <<Kw("q", Var("p10"))>>, <<I(2)>>, "none"),
   Stmt("Sgate", TRUE, <<Var("p0"), F(1, 2)>>, <<>>, <<I(0)>>, "none"),
   Stmt("BSgate", TRUE, <<Var("p1")>>, <<Kw("phi", Var("p0"))>>, <<I(0), I(1)>>, "sq"),
@@ -24,6 +27,8 @@ TdmItems == {
   Stmt("MeasureHomodyne", TRUE, <<>>, <<Kw("phi", Var("p1"))>>, <<I(0)>>, "none"),
   Stmt("D", TRUE, <<Var("v"), [t |-> "idx", x |-> "M", e |-> I(2)]>>, <<>>, <<I(1)>>, "none"),
   Stmt("Kv", TRUE, <<Var("W"), Var("p10")>>, <<Kw("m", Var("p1x"))>>, <<I(1)>>, "none"),
+  \* string arguments: one that looks like a p-name but names no variable, the empty string, one that equals a declared p-name
+  Stmt("Str", TRUE, <<SStr("p55"), SStr("")>>, <<Kw("s", SStr("p0"))>>, <<I(1)>>, "none"),
   Stmt("T", TRUE, <<Par("a")>>, <<Kw("k", Var("p0"))>>, <<I(0)>>, "none"),
   [t |-> "for", ty |-> "int", x |-> "i", hdr |-> [t |-> "range", a |-> 0, b |-> 2, c |-> 0, hasc |-> FALSE],
      body |-> <<Stmt("Lp", TRUE, <<Var("p0"), Var("i")>>, <<>>, <<Var("i")>>, "none")>>]
